@@ -20,7 +20,7 @@ def indices : List Nat → List (List Nat)
 
 /-- flat C-order offset of a multi-index -/
 def offset : List Nat → List Nat → Nat
-  | n :: s, i :: p => i * sz s + offset s p
+  | _ :: s, i :: p => i * sz s + offset s p
   | _, _ => 0
 
 /-- the multi-index addresses an element of the shape -/
